@@ -354,7 +354,27 @@ fn main() {
             let mut cr = CaseResult::default();
             let dest = sandbox_dir().join(format!("c01fs-{}-{}", std::process::id(), i));
             std::fs::create_dir_all(&dest).ok();
-            let wit = json!({"sender": spec.json(), "objects": objs.iter().map(|o| o.json()).collect::<Vec<_>>()});
+            // half of the objects replace a file that already exists under the same name and is LONGER than the
+            // object (an earlier version of the same location): the file must hold exactly the new bytes afterwards
+            let mut preexisting = 0u64;
+            for ob in objs.iter() {
+                if rng.chance(1, 2) {
+                    let u = url::Url::parse(&ob.location).unwrap();
+                    let rel = u.path().trim_start_matches('/').to_string();
+                    let dec: String = url::form_urlencoded::parse(rel.replace('+', "%2B").as_bytes()).map(|(k, v)| format!("{}{}", k, v)).collect();
+                    let old = vec![0xEEu8; ob.data.len() + rng.range(1, 5000) as usize];
+                    for r in [rel, dec] {
+                        let p = dest.join(&r);
+                        if let Some(parent) = p.parent() {
+                            std::fs::create_dir_all(parent).ok();
+                        }
+                        std::fs::write(&p, &old).ok();
+                    }
+                    preexisting += 1;
+                }
+            }
+            cr.count("preexisting_longer_files", preexisting);
+            let wit = json!({"sender": spec.json(), "objects": objs.iter().map(|o| o.json()).collect::<Vec<_>>(), "preexisting_longer_files": preexisting});
             let r = util::guarded(|| {
                 let em = emit(&spec, &objs, &EmitOpts::default())?;
                 let w = std::rc::Rc::new(flute::receiver::writer::ObjectWriterFSBuilder::new(&dest, true).map_err(|e| format!("{:?}", e))?);
